@@ -338,11 +338,12 @@ def run_split_total(ctx: Ctx) -> RuleResult:
                 if isinstance(a, ast.If) and p in a.body and _contains_in_test(a.test, sep, recv):
                     guarded = True
                 p = a
+            props = ['C08', 'C18'] if f.module.name == 'lark.indenter' else ['C08']
             res.ob(site, norm(n) + ': partial index guarded by `%s in %s`' % (sep, recv), guarded)
             if not guarded:
                 res.finding(f, enclosing_stmt(n), 'index %s into %s raises IndexError when the separator is absent '
                             '(an input-dependent crash that is not an UnexpectedInput)' % (norm(idx), norm(c)),
-                            construct=norm(n))
+                            construct=norm(n), props=props)
     res.require_instances(n_sites, 3, 'subscripted split/rsplit calls')
     return res
 
